@@ -67,7 +67,8 @@ def cases(spec, ctx):
                                   allow_expr_sel=False)
             if rng.random() < 0.4:
                 i_ = rng.randrange(len(case["kinds"]))
-                path = ([["a", "p"]] if case["kinds"][i_] == "Q" else []) + [["a", rng.choice(["flag", "s", "t"])]]
+                path = ([["a", "p"]] if case["kinds"][i_] == "Q" else []) + \
+                    rng.choice([[["a", "flag"]], [["a", "s"]], [["a", "t"]], [["a", "d"], ["i", "m"]], [["a", "d"], ["i", "m"]]])
                 case["sel"] = list(case["sel"]) + [["v", i_, path]]
             case.update({"kind": kind, "caching": rng.random() < 0.7})
             yield case
